@@ -115,16 +115,23 @@ Qed.
 Lemma ofnat_p_R n : @ofnat_p NumR n = INR n.
 Proof. unfold ofnat_p. numR. symmetry. apply INR_IZR_INZ. Qed.
 
-Lemma linspace_R (a b : R) (n : nat) :
+Lemma linspace_R (a b : R) (n : nat) : (0 < n)%nat ->
   @linspace NumR a b n = map (fun i => a + INR i * ((b - a) / INR n)) (seq 0 n) ++ [b].
 Proof.
+  intros Hn. destruct n as [|n]; [lia|].
   unfold linspace. f_equal. apply map_ext. intros i. rewrite !ofnat_p_R. numR. reflexivity.
+Qed.
+
+Lemma linspace_length (a b : R) (n : nat) : length (@linspace NumR a b n) = S n.
+Proof.
+  destruct n as [|n]; [reflexivity|]. unfold linspace.
+  rewrite app_length, map_length, seq_length. cbn [length]. lia.
 Qed.
 
 Lemma linspace_nth (a b : R) (n i : nat) : (0 < n)%nat -> (i <= n)%nat ->
   nth i (@linspace NumR a b n) 0 = a + INR i * ((b - a) / INR n).
 Proof.
-  intros Hn Hi. rewrite linspace_R. change (T NumR) with R in *.
+  intros Hn Hi. rewrite linspace_R by exact Hn. change (T NumR) with R in *.
   set (f := fun i0 : nat => a + INR i0 * ((b - a) / INR n)).
   assert (Hl : length (map f (seq 0 n)) = n) by (rewrite map_length, seq_length; reflexivity).
   destruct (Nat.eq_dec i n) as [->|Hne].
@@ -150,8 +157,7 @@ Proof.
   change (@hd (T NumR) (@nzero NumR) ts) with (hd 0 ts).
   change (@last (T NumR) ts (@nzero NumR)) with (last ts 0). rewrite H0.
   change (T NumR) with R in *. set (a := last ts 0) in *.
-  assert (Hlen : length (@linspace NumR a 0 n) = S n).
-  { unfold linspace. rewrite app_length, map_length, seq_length. cbn [length]. lia. }
+  assert (Hlen : length (@linspace NumR a 0 n) = S n) by apply linspace_length.
   assert (Hn0 : 0 < INR n) by (apply lt_0_INR; lia).
   assert (Hstep : 0 < (0 - a) / INR n) by (apply Rdiv_lt_0_compat; lra).
   change (T NumR) with R in *.
